@@ -2,7 +2,16 @@ from functools import lru_cache
 import json
 import mimetypes
 import os
-from os.path import exists, getmtime, getsize, isdir, join, normcase, normpath
+from os.path import (
+    exists,
+    getmtime,
+    getsize,
+    isdir,
+    isfile,
+    join,
+    normcase,
+    normpath,
+)
 from pkg_resources import resource_exists, resource_filename, resource_isdir
 import warnings
 
@@ -183,10 +192,12 @@ class static_view:
 
         """
         if self.package_name:
-            if resource_exists(self.package_name, name):
+            if resource_exists(
+                self.package_name, name
+            ) and not resource_isdir(self.package_name, name):
                 return resource_filename(self.package_name, name)
 
-        elif exists(name):
+        elif isfile(name):
             return name
 
     def get_possible_files(self, resource_name):
